@@ -85,11 +85,23 @@ def run(prog, rep, tier='quick', config='default'):
         for x in c.fn.calls:
             if x.short in ('contains_key', 'get') and x.args and re.search(MEMO_RX, c.fn.ty.get(x.arg_local(0), '')):
                 keycall = keycall or x
+        key_op = keycall.args[1] if keycall is not None and len(keycall.args) > 1 else None
+        if keycall is None:
+            # the memo test sits in a bool-valued helper (`if self.year_needs_load(year, date)`): the key is the helper's argument
+            for hc in c.fn.calls:
+                h = prog.resolve(hc.callee, c.fn.crate)
+                if h is None or h.kind not in ('Fn', 'AssocFn') or h.ty.get(0) != 'bool':
+                    continue
+                for x in h.calls:
+                    if x.short in ('contains_key', 'get') and len(x.args) > 1 and re.search(MEMO_RX, h.ty.get(x.arg_local(0), '')):
+                        ps = sorted(mir.provenance(h, x.args[1]).params)
+                        if len(ps) == 1 and ps[0] - 1 < len(hc.args) and keycall is None:
+                            keycall, key_op = x, hc.args[ps[0] - 1]
         if keycall is not None:
-            paths = mir.symbolic_paths(c.fn, 0, c.bb, lambda x, f=c.fn: rate_atom(f, x))
+            paths = mir.symbolic_paths(c.fn, 0, c.bb, rate_atom, prog=prog)
             rep.extra['download_guard_paths'] = None if paths is None else sorted({str(sorted(p.items())) for p in paths})
             if paths and all(p.get('memo') is False or p.get('fresh') is False for p in paths):
-                guard_site = (c, keycall)
+                guard_site = (c, key_op)
         if guard_site:
             break
         cur = prog.owner_of(c.fn)
@@ -108,7 +120,7 @@ def run(prog, rep, tier='quick', config='default'):
                and fn.dominates(c.bb, x.bb)]
         same_key = False
         if ins:
-            k1 = mir.provenance(fn, ck.args[1], follow_all_call_args=True)
+            k1 = mir.provenance(fn, ck, follow_all_call_args=True)
             k2 = mir.provenance(fn, ins[0].args[1], follow_all_call_args=True)
             same_key = bool((k1.locals & k2.locals) & (fn.user | set(range(1, fn.argc + 1))) or (k1.locals & k2.locals))
         if ins and same_key:
@@ -151,7 +163,7 @@ def run(prog, rep, tier='quick', config='default'):
         else:
             reach = set()
             for x in answers:
-                paths = mir.symbolic_paths(fn, 0, x.bb, lambda y, f=fn: rate_atom(f, y), avoid={c.bb})
+                paths = mir.symbolic_paths(fn, 0, x.bb, rate_atom, avoid={c.bb}, prog=prog)
                 if paths is None or any(not (p.get('date') is True or p.get('fresh') is True) for p in paths):
                     reach.add(x.bb)
             for n, x in enumerate(answers, 1):
